@@ -45,7 +45,7 @@ class AxisPlane(Surface):
     def find_duplicate_surfaces(self, surfaces, tolerance):
         ret = []
         # do not assume transform and periodic surfaces are the same.
-        if not self.old_periodic_surface:
+        if self.periodic_surface is None:
             for surface in surfaces:
                 if (
                     surface != self
@@ -53,7 +53,7 @@ class AxisPlane(Surface):
                     and surface.is_reflecting == self.is_reflecting
                     and surface.is_white_boundary == self.is_white_boundary
                 ):
-                    if not self.old_periodic_surface:
+                    if surface.periodic_surface is None:
                         if abs(self.location - surface.location) < tolerance:
                             if self.transform:
                                 if surface.transform:
